@@ -49,6 +49,13 @@ class FArr(_np.ndarray):
                 raise ValueError('setting an array element with a sequence.')
         _np.ndarray.__setitem__(self, idx, val)
 
+    def __getitem__(self, idx):
+        # boolean mask with symbolic entries: each entry is decided (forks), then ordinary mask indexing
+        if isinstance(idx, _np.ndarray) and idx.dtype == object and idx.shape == self.shape and idx.size \
+                and all(isinstance(v, (bool, _np.bool_)) or (isinstance(v, Sym) and v.e.sort == 'B') for v in idx.flat):
+            idx = _np.array([bool(v) for v in idx.flat], dtype=bool).reshape(idx.shape)
+        return _np.ndarray.__getitem__(self, idx)
+
 
 class IArr(_np.ndarray):
     """object array standing for an int64 array (e.g. zeros_like of an integer container):
@@ -302,6 +309,31 @@ class _Shim:
                 return False
             return _np.zeros(_np.shape(_obj(a)), dtype=bool)
         return _np.isnan(a)
+
+    def isfinite(self, a):
+        # reals: every symbolic value is finite
+        if isinstance(a, Sym):
+            return True
+        if has_sym(a):
+            o = _obj(a)
+            return _np.array([True if isinstance(v, Sym) else bool(_np.isfinite(v)) for v in o.flat], dtype=bool).reshape(o.shape)
+        return _np.isfinite(a)
+
+    def isinf(self, a):
+        if isinstance(a, Sym):
+            return False
+        if has_sym(a):
+            o = _obj(a)
+            return _np.array([False if isinstance(v, Sym) else bool(_np.isinf(v)) for v in o.flat], dtype=bool).reshape(o.shape)
+        return _np.isinf(a)
+
+    def allclose(self, a, b, rtol=1e-05, atol=1e-08, equal_nan=False):
+        if has_sym(a) or has_sym(b) or isinstance(a, Sym) or isinstance(b, Sym):
+            r = self.isclose(a, b, rtol=rtol, atol=atol)
+            if isinstance(r, (Sym, bool, _np.bool_)):
+                return bool(r)
+            return all(bool(v) for v in _obj(r).flat)
+        return _np.allclose(a, b, rtol=rtol, atol=atol, equal_nan=equal_nan)
 
     def isreal(self, a):
         if 'isreal' in stubs:
